@@ -188,8 +188,12 @@ public:
     }
 
     base_array<T> operator[](const std::vector<int>& idxs) const {
-        const size_t max_i = *std::max_element(idxs.begin(), idxs.end());
-        DSPLIB_ASSERT(max_i < _vec.size(), "index must not exceed the size of the vector");
+        if (idxs.empty()) {
+            return base_array<T>();
+        }
+        const int max_i = *std::max_element(idxs.begin(), idxs.end());
+        const int min_i = *std::min_element(idxs.begin(), idxs.end());
+        DSPLIB_ASSERT((min_i >= 0) && (max_i < int(_vec.size())), "index must not exceed the size of the vector");
         std::vector<T> res(idxs.size());
         for (size_t i = 0; i < idxs.size(); ++i) {
             res[i] = _vec[idxs[i]];
